@@ -43,6 +43,17 @@ def feed (r : RS) (idx : Nat) (tok : String) : RS :=
     | some s => if s.jobs.isEmpty && s.done == s.next then { r with st := none }
                 else { r with bad := some s!"event {idx}: frame reported complete with jobs {s.done}..{s.next} outstanding" }
     | none => r
+  -- the worker of a FAILED job j went through ZSTDMT_serialState_ensureFinished with serial.nextJobID = b at lock and = a at unlock (the harness
+  -- logs it whether or not a frame is being replayed: the trace is cut when an allocation fault fires): the counter must move as `step _ (.fail j)` says
+  | ["efin", j, b, a] =>
+    match j.toNat?, b.toNat?, a.toNat? with
+    | some j, some b, some a =>
+      let s0 : St := { mask := 0, done := j, next := j + 1, serialNext := b, jobs := [{ id := j, srcSize := 0 }] }
+      match step s0 (.fail j) with
+      | some s1 => if s1.serialNext == a then { r with steps := r.steps + 1 }
+                   else { r with bad := some s!"event {idx}: failed job {j} left the serial section with serial.nextJobID {b} -> {a}, the model's `fail {j}` gives {s1.serialNext} (later jobs wait for a turn nobody hands over)" }
+      | none => { r with bad := some s!"event {idx}: `fail {j}` is not a transition of the protocol model" }
+    | _, _, _ => { r with bad := some s!"event {idx}: unparsable '{tok}'" }
   | "sync-gap" :: _ => { r with bad := some s!"event {idx}: harness lost track of the caller ({tok})" }
   | _ =>
     match r.st with
